@@ -80,8 +80,15 @@ func (t *float64Scalar) CoerceOut(v interface{}) (interface{}, error) {
 		// remains nil
 	case float32:
 		v = float64(tv)
+		if math.IsInf(float64(tv), 0) || tv != tv {
+			v = nil
+			err = newCoerceErr(tv, "Float64")
+		}
 	case float64:
-		// ok as is
+		if math.IsInf(tv, 0) || tv != tv {
+			v = nil
+			err = newCoerceErr(tv, "Float64")
+		}
 	case int:
 		v = float64(tv)
 	case int8:
@@ -106,6 +113,10 @@ func (t *float64Scalar) CoerceOut(v interface{}) (interface{}, error) {
 		var f float64
 		if f, err = strconv.ParseFloat(tv, 64); err == nil {
 			v = f
+			if math.IsInf(f, 0) || f != f {
+				v = nil
+				err = newCoerceErr(tv, "Float64")
+			}
 		}
 	default:
 		v = nil
